@@ -252,3 +252,31 @@ def add_flatten(rnd, spec, info, force=None, ei=0):
     _set_map(s, out, parts, lo)
     s.tags = list(s.tags) + tags
     return s
+
+
+def add_double_flatten(rnd, spec, info, ei=0):
+    """Two interleaved flattenings of one 4-rank input, e.g. (M, O) and (N, P)
+    of A[M, N, O, P]; loop order: the two flattened ranks, then the rest."""
+    s = spec.clone()
+    e = s.exprs[ei]
+    out = e.out.name
+    cands = [a.name for a in e.inputs() if len(s.decl[a.name]) >= 4]
+    if not cands:
+        return None
+    tname = rnd.choice(cands)
+    tr = list(s.decl[tname])
+    four = rnd.sample(tr, 4)
+    t1, t2 = [four[0], four[2]], [four[1], four[3]]
+    for t in (t1, t2):
+        if len([r for r in t if r in s.decl[out]]) > 1 and rnd.random() < 0.7:
+            return None
+    parts = {"(%s)" % ", ".join(t1): ["flatten()"], "(%s)" % ", ".join(t2): ["flatten()"]}
+    if rnd.random() < 0.5:
+        parts = dict(reversed(list(parts.items())))
+    flats = ["".join(t1), "".join(t2)]
+    rnd.shuffle(flats)
+    others = [[r] for r in info["ranks"] if r not in four]
+    lo = interleave(rnd, others + [[flats[0]], [flats[1]]], True)
+    _set_map(s, out, parts, lo)
+    s.tags = list(s.tags) + ["flatten", "double-flatten"]
+    return s
